@@ -307,8 +307,24 @@ func runEnc(t []string) (*encode.Encoder, []string) {
 
 // playEnc plays an encoder script on e and returns the observations.
 func playEnc(e *encode.Encoder, t []string) []string {
+	var handed, copies [][]byte
+	obs := playEnc1(e, t, &handed, &copies)
+	for k := range handed {
+		if string(handed[k]) != string(copies[k]) {
+			obs = append(obs, "BYTES-CHANGED-AFTER-RETURN")
+			break
+		}
+	}
+	return obs
+}
+
+func playEnc1(e *encode.Encoder, t []string, handed, copies *[][]byte) []string {
 	var obs []string
 	for i := 0; i < len(t); {
+		if t[i] == "R" {
+			// Reset recycles the buffer (documented): bytes handed out before it are no longer watched
+			*handed, *copies = nil, nil
+		}
 		switch t[i] {
 		case "H0":
 			e.HighResolutionCoordinates = false
@@ -332,6 +348,8 @@ func playEnc(e *encode.Encoder, t []string) []string {
 				obs = append(obs, "B="+encErr(err))
 			} else {
 				obs = append(obs, "B="+hexs(b))
+				*handed = append(*handed, b)
+				*copies = append(*copies, append([]byte(nil), b...))
 			}
 			i++
 		default:
